@@ -416,7 +416,7 @@ def epilogue_position_semantics(db, ctx):
                                 # candidate (row = output[t], col = t) for every t: t ranges over exactly 0..C::USIZE, or over the whole spilled array
                                 xs = norm(cf[0])
                                 whole = cf[3][0] == 'len' and norm(cf[3][1]) == xs and xs[0] == 'v' and g.local_ty(xs[1]).startswith(('[', 'generic_array::GenericArray'))
-                                if common.is_usize_const(cf[3]) or whole:
+                                if common.is_usize_const(cf[3], 'C') or whole:
                                     ok = True
                                     cmp_cells = True
         if ok and cmp_cells:
